@@ -178,14 +178,14 @@ PROPS["C12"] = P(
         J("c12_langid_eq_ord_v1", unwind=6, uw=VAL_UW, desc="==, cmp, partial_cmp vs field-by-field reference, antisymmetry; <=1 variant per side", weight=2),
         J("c12_langid_eq_ord_v2", tier="t", unwind=6, uw=VAL_UW, desc="as above, <=2 variants per side", weight=3, mem_gb=12),
         J("c12_langid_hash", unwind=6, uw=mk({r"Fnv|hash": 10}, VAL_UW), desc="equal values hash equally (fixed rotate-xor hasher), <=2 variants", weight=2),
-        J("c12_routes_no_variants", unwind=6, uw=mk({r"Fnv|hash": 24}, VEC_UW, VAL_UW), stubs=VEC_STUBS, desc="set_variants(&[]) / clear_variants / from_parts(.., &[]) / never set: ==, same hash, Equal; any langid with <=2 variants", weight=2, mem_gb=12),
+        J("c12_routes_no_variants", unwind=6, uw=mk({r"Fnv|hash": 24}, VEC_UW, VAL_UW), stubs=VEC_STUBS, desc="set_variants(&[]) / clear_variants / from_parts(.., &[]) / never set: ==, same hash, Equal; any langid with <=2 variants", weight=2, mem_gb=24),
         J("c12_ulist_eq_3_3", tier="t", unwind=6, uw=mk({r"Fnv|hash": 10, r"umodel_eq|c12::": 6}, xuw(2)), stubs=EXT_STUBS, desc="two -u- lists parsed from [S(3),S(3)]: == iff same canonical content, Equal iff ==, antisymmetric, equal => same hash", weight=4, mem_gb=24, cbmc=NOPTR),
         J("c12_ulist_eq_2_3", tier="t", unwind=6, uw=mk({r"Fnv|hash": 10, r"umodel_eq|c12::": 6}, xuw(2)), stubs=EXT_STUBS, desc="two -u- lists parsed from [S(2),S(3)] (one keyword each)", weight=5, mem_gb=40, cbmc=NOPTR, timeout_t=5400),
         J("c12_routes_ext", unwind=6, uw=mk({r"Fnv|hash": 10}, C10_UW), stubs=INSREM + EXT_STUBS, desc="attribute / private tag added then removed == never added: ==, same hash, Equal", weight=2, mem_gb=12, cbmc=NOPTR),
         J("c12_routes_keyword", tier="t", unwind=6, uw=mk({r"Fnv|hash": 10}, C10_UW), stubs=EXT_STUBS, desc="keyword set then removed == never set: ==, same hash, Equal", weight=3, mem_gb=30, cbmc=NOPTR),
         J("c12_langid_ord_transitive", unwind=6, uw=VAL_UW, desc="cmp transitive on symbolic triples, <=1 variant", weight=3, mem_gb=12),
         J("c12_langid_eq_iff_string_eq", unwind=6, uw=mk(FMT_UW, VAL_UW), stubs=STR_STUBS, desc="x == y iff to_string equal, real Display/core::fmt, <=1 variant", weight=3, mem_gb=12),
-        J("c12_langid_eq_str", unwind=6, uw=mk({r"c12::c12_langid_eq_str": 18, r"write_langid|write_txt": 10}, VAL_UW, FMT_UW), stubs=STR_STUBS, desc="li == &str iff str is the canonical text; str = any ASCII string <= 16 bytes", weight=3, mem_gb=12),
+        J("c12_langid_eq_str", unwind=6, uw=mk({r"k::bytes": 20, r"c12::c12_langid_eq_str": 18, r"write_langid|write_txt": 10}, VAL_UW, FMT_UW), stubs=STR_STUBS, desc="li == &str iff str is the canonical text; str = any ASCII string <= 16 bytes", weight=3, mem_gb=24),
     ],
     bounds="pairs/triples of language identifiers: any valid language (or und), optional script, optional region, 0..1 (quick) / 0..2 (thorough) variants; &str operands: any ASCII string of <= 16 bytes",
     outside="Locale/ExtensionsMap ordering (see level_note), identifiers with more than 2 variants, strings longer than 16 bytes",
@@ -254,11 +254,13 @@ PROPS["C06"] = P(
 PROPS["C07"] = P(
     jobs=[
         J("c07_laws_und", unwind=6, uw=LK_UW, desc="kept subtags, all three filled, second maximize is None; arbitrary (und, script?, region?)"),
+        J("c07_laws_zh", unwind=6, uw=LK_UW, desc="the same laws plus 'second maximize is None' for the concrete language zh, every valid (script?, region?)", weight=2),
+        J("c07_laws_unknown_qaa", unwind=6, uw=LK_UW, desc="same for qaa, a language without CLDR entry (must never be replaced by a table language)", weight=2),
         J("c07_laws_lang", tier="t", unwind=6, uw=LK_UW, desc="same for arbitrary non-empty language (touches the 7143-row table)", weight=5, mem_gb=40, cbmc=["--no-pointer-check"], trace=False, timeout_t=5400),
         J("c07_full_is_fixpoint", tier="t", unwind=6, uw=LK_UW, desc="language+script+region all present => maximize is None / false / unchanged (closes idempotence); the language's emptiness is a niche value of its first byte, so CBMC also explores the table branch", weight=5, mem_gb=40, cbmc=["--no-pointer-check"], trace=False, timeout_t=5400),
         J("c07_wrapper_und", unwind=6, uw=mk(VAL_UW, LK_UW), desc="LanguageIdentifier::maximize: variants untouched, bool<=>changed, false=>unchanged, idempotent; und language, <=2 variants", weight=3, mem_gb=12),
     ],
-    bounds="every valid (script?, region?) with und language (quick); every valid (language, script?, region?) (thorough); wrapper with 0..2 variants",
+    bounds="every valid (script?, region?) with und language and with the concrete languages zh and qaa (unknown to CLDR) (quick); every valid (language, script?, region?) (thorough); wrapper with 0..2 variants",
     outside="Locale extensions attached to the identifier (Locale.id is a plain LanguageIdentifier field; extension state is not reachable from LanguageIdentifier::maximize)",
 )
 PROPS["C14"] = P(
@@ -297,10 +299,10 @@ PROPS["C03"] = P(
         uf("c03_u_2_4_1", [2, 4, 1]), uf("c03_u_2_3_9", [2, 3, 9]), uf("c03_u_3_0", [3, 0]), uf("c03_u_1", [1]), uf("c03_u_9", [9]),
         uf("c03_u_4", [4]), uf("c03_u_4_2_4", [4, 2, 4]), uf("c03_u_5_3", [5, 3]),
         uf("c03_u_2_2", [2, 2], tier="t"), uf("c03_u_2_3_2_3", [2, 3, 2, 3], tier="t"),
-        tf("c03_t_2", [2], tier="t"), tf("c03_t_2_3", [2, 3], tier="t"), tf("c03_t_3", [3], tier="t"), tf("c03_t_2_3_1", [2, 3, 1], tier="t", mem_gb=44, timeout_t=3000, trace=False), tf("c03_t_2_2_3", [2, 2, 3], tier="t"),
+        tf("c03_t_2", [2], tier="t"), tf("c03_t_2_3", [2, 3], tier="t"), tf("c03_t_3", [3], mem_gb=16), tf("c03_t_3_3", [3, 3], tier="t", mem_gb=24, timeout_t=3000), tf("c03_t_3_4", [3, 4], tier="x", mem_gb=24), tf("c03_t_8_3", [8, 3], tier="x", mem_gb=24), tf("c03_t_3_1", [3, 1], tier="t", mem_gb=24, timeout_t=3000), tf("c03_t_2_3_1", [2, 3, 1], tier="t", mem_gb=44, timeout_t=3000, trace=False), tf("c03_t_2_2_3", [2, 2, 3], tier="t"),
         tf("c03_t_2_5_2", [2, 5, 2], tier="t", mem_gb=44, timeout_t=3000, trace=False), tf("c03_t_2_3_2_3", [2, 3, 2, 3], tier="t"),
-        tk("c03_tk_h0_3", 2, tier="t"), tk("c03_tk_h0_3_1", 3, tier="t"), tk("c03_tk_h0_3_9", 3, tier="t"), tk("c03_tk_h0_4_5", 3, tier="t"), tk("c03_tk_h0_3_k0_4", 4, tier="t"), tk("c03_tk_en_5_2", 3, tier="t"), tk("c03_tk_en_h0_3", 3, tier="t"),
-        tk("c03_uk_ca_3", 2, t=False), tk("c03_uk_ca_4_1", 3, t=False), tk("c03_uk_3_ca_4", 3, t=False, tier="t"), tk("c03_uk_nu_3_ca_4", 4, t=False, tier="t", mem_gb=30),
+        tk("c03_tk_h0_hybrid_sing", 3), tk("c03_tk_en_de", 2), tk("c03_tk_en_us_de", 3), tk("c03_tk_en_us_3", 3), tk("c03_tk_h0_3", 2), tk("c03_tk_h0_3_1", 3), tk("c03_tk_h0_3_9", 3), tk("c03_tk_h0_4_5", 3), tk("c03_tk_h0_3_k0_4", 4, tier="x"), tk("c03_tk_en_5_2", 3, tier="x"), tk("c03_tk_en_h0_3", 3),
+        tk("c03_uk_ca_3", 2, t=False), tk("c03_uk_ca_4_1", 3, t=False), tk("c03_uk_3_ca_4", 3, t=False), tk("c03_uk_nu_3_ca_4", 4, t=False, tier="x", mem_gb=30),
         mf("c03_map_u3_u3", 4, tier="t"), mf("c03_map_u3_x3", 4, tier="t"), mf("c03_map_t2_3_u3", 5, tier="t"), mf("c03_map_u3_t2", 4, tier="t"), mf("c03_map_t2_t2", 4, tier="t"), mf("c03_map_u2_3_t2_3_x3", 8, tier="t"),
         J("c03_x_1", unwind=6, uw=xuw(1), stubs=EXT_STUBS, desc="-x- body, 1 x T9"),
         J("c03_x_2", unwind=6, uw=xuw(2), stubs=EXT_STUBS, desc="-x- body, 2 x T9"),
@@ -407,18 +409,24 @@ PROPS["C19"] = P(
 
 PROPS["C08"] = P(
     jobs=[
-        J("c08_zh_meaning", tier="q", unwind=6, uw=LK_UW, desc="minimize on (zh, script?, region?), every valid script/region: result within the maximised form, one of the three shapes, maximizes back to it", weight=3, mem_gb=16, cbmc=NOPTR),
-        J("c08_zh_first", tier="q", unwind=6, uw=LK_UW, desc="minimize on (zh, script?, region?), every valid script/region: the chosen form is the first of {language, language-region, language-script} that maximizes back; None only if none does", weight=3, mem_gb=16, cbmc=NOPTR),
-        J("c08_zh_idempotent", tier="q", unwind=6, uw=LK_UW, desc="minimize on (zh, script?, region?), every valid script/region: minimizing twice equals minimizing once", weight=3, mem_gb=16, cbmc=NOPTR),
-        J("c08_zh_minmax", tier="q", unwind=6, uw=LK_UW, desc="minimize on (zh, script?, region?), every valid script/region: minimize(maximize(x)) == minimize(x)", weight=3, mem_gb=16, cbmc=NOPTR),
-        J("c08_sr_meaning", tier="t", unwind=6, uw=LK_UW, desc="minimize on (sr, script?, region?), every valid script/region: result within the maximised form, one of the three shapes, maximizes back to it", weight=3, mem_gb=16, cbmc=NOPTR),
-        J("c08_sr_first", tier="t", unwind=6, uw=LK_UW, desc="minimize on (sr, script?, region?), every valid script/region: the chosen form is the first of {language, language-region, language-script} that maximizes back; None only if none does", weight=3, mem_gb=16, cbmc=NOPTR),
-        J("c08_sr_idempotent", tier="t", unwind=6, uw=LK_UW, desc="minimize on (sr, script?, region?), every valid script/region: minimizing twice equals minimizing once", weight=3, mem_gb=16, cbmc=NOPTR),
-        J("c08_sr_minmax", tier="t", unwind=6, uw=LK_UW, desc="minimize on (sr, script?, region?), every valid script/region: minimize(maximize(x)) == minimize(x)", weight=3, mem_gb=16, cbmc=NOPTR),
-        J("c08_en_meaning", tier="t", unwind=6, uw=LK_UW, desc="minimize on (en, script?, region?), every valid script/region: result within the maximised form, one of the three shapes, maximizes back to it", weight=3, mem_gb=16, cbmc=NOPTR),
-        J("c08_en_first", tier="t", unwind=6, uw=LK_UW, desc="minimize on (en, script?, region?), every valid script/region: the chosen form is the first of {language, language-region, language-script} that maximizes back; None only if none does", weight=3, mem_gb=16, cbmc=NOPTR),
-        J("c08_qaa_meaning", tier="q", unwind=6, uw=LK_UW, desc="minimize on (qaa, script?, region?), every valid script/region: result within the maximised form, one of the three shapes, maximizes back to it", weight=3, mem_gb=16, cbmc=NOPTR),
-        J("c08_wrapper_zh", unwind=6, uw=mk(VAL_UW, LK_UW), desc="LanguageIdentifier::minimize wrapper: variants untouched, bool, unchanged on false (zh, <=1 variant)", weight=3, mem_gb=16, cbmc=NOPTR),
+        J("c08_zh_full_meaning", unwind=6, uw=LK_UW, desc="minimize on (zh, script, region), every valid script and region both present: result within the input, one of the three shapes, maximizes back to the input", weight=3, mem_gb=16, cbmc=NOPTR),
+        J("c08_zh_full_first", unwind=6, uw=LK_UW, desc="same inputs: the chosen form is the first of {language, language-region, language-script} that maximizes back; None only if none does", weight=3, mem_gb=16, cbmc=NOPTR),
+        J("c08_sr_full_meaning", unwind=6, uw=LK_UW, desc="(sr, script, region) both present: meaning", weight=3, mem_gb=16, cbmc=NOPTR),
+        J("c08_sr_full_first", unwind=6, uw=LK_UW, desc="(sr, script, region) both present: first form", weight=3, mem_gb=16, cbmc=NOPTR),
+        J("c08_en_full_first", unwind=6, uw=LK_UW, desc="(en, script, region) both present: first form", weight=3, mem_gb=16, cbmc=NOPTR),
+        J("c08_qaa_first", unwind=6, uw=LK_UW, desc="(qaa, script?, region?): first-form clause for a language without CLDR entry", weight=2, mem_gb=16, cbmc=NOPTR),
+        J("c08_zh_meaning", tier="q", unwind=6, uw=LK_UW, desc="minimize on (zh, script?, region?), every valid script/region: result within the maximised form, one of the three shapes, maximizes back to it", weight=3, mem_gb=28, cbmc=NOPTR),
+        J("c08_zh_first", tier="q", unwind=6, uw=LK_UW, desc="minimize on (zh, script?, region?), every valid script/region: the chosen form is the first of {language, language-region, language-script} that maximizes back; None only if none does", weight=3, mem_gb=28, cbmc=NOPTR),
+        J("c08_zh_idempotent", tier="q", unwind=6, uw=LK_UW, desc="minimize on (zh, script?, region?), every valid script/region: minimizing twice equals minimizing once", weight=3, mem_gb=28, cbmc=NOPTR),
+        J("c08_zh_minmax", tier="q", unwind=6, uw=LK_UW, desc="minimize on (zh, script?, region?), every valid script/region: minimize(maximize(x)) == minimize(x)", weight=3, mem_gb=28, cbmc=NOPTR),
+        J("c08_sr_meaning", tier="t", unwind=6, uw=LK_UW, desc="minimize on (sr, script?, region?), every valid script/region: result within the maximised form, one of the three shapes, maximizes back to it", weight=3, mem_gb=28, cbmc=NOPTR),
+        J("c08_sr_first", tier="t", unwind=6, uw=LK_UW, desc="minimize on (sr, script?, region?), every valid script/region: the chosen form is the first of {language, language-region, language-script} that maximizes back; None only if none does", weight=3, mem_gb=28, cbmc=NOPTR),
+        J("c08_sr_idempotent", tier="t", unwind=6, uw=LK_UW, desc="minimize on (sr, script?, region?), every valid script/region: minimizing twice equals minimizing once", weight=3, mem_gb=28, cbmc=NOPTR),
+        J("c08_sr_minmax", tier="t", unwind=6, uw=LK_UW, desc="minimize on (sr, script?, region?), every valid script/region: minimize(maximize(x)) == minimize(x)", weight=3, mem_gb=28, cbmc=NOPTR),
+        J("c08_en_meaning", tier="t", unwind=6, uw=LK_UW, desc="minimize on (en, script?, region?), every valid script/region: result within the maximised form, one of the three shapes, maximizes back to it", weight=3, mem_gb=28, cbmc=NOPTR),
+        J("c08_en_first", tier="t", unwind=6, uw=LK_UW, desc="minimize on (en, script?, region?), every valid script/region: the chosen form is the first of {language, language-region, language-script} that maximizes back; None only if none does", weight=3, mem_gb=28, cbmc=NOPTR),
+        J("c08_qaa_meaning", tier="q", unwind=6, uw=LK_UW, desc="minimize on (qaa, script?, region?), every valid script/region: result within the maximised form, one of the three shapes, maximizes back to it", weight=3, mem_gb=28, cbmc=NOPTR),
+        J("c08_wrapper_zh", unwind=6, uw=mk(VAL_UW, LK_UW), desc="LanguageIdentifier::minimize wrapper: variants untouched, bool, unchanged on false (zh, <=1 variant)", weight=3, mem_gb=28, cbmc=NOPTR),
         J("c08_laws_und", tier="t", unwind=6, uw=LK_UW, desc="single-call laws of minimize for (und, script?, region?): result within the maximised form, one of the three shapes, maximizes back", **BIG),
         J("c08_wrapper_und", tier="t", unwind=6, uw=mk(VAL_UW, LK_UW), desc="LanguageIdentifier::minimize wrapper: variants untouched, bool, unchanged on false (und language)", **BIG),
         J("c08_laws_lang", tier="t", unwind=6, uw=LK_UW, desc="same laws for any non-empty language", **BIG),
@@ -457,7 +465,7 @@ PROPS["C01"] = P(
         # the harnesses of C02/C03/C10/C07/C14 run under C01 too
         reuse("C02", "c02_bytes_len1"), reuse("C02", "c02_tokens_2"), reuse("C02", "c02_bytes_len2", "t"),
         reuse("C03", "c03_u_2_3_9"), reuse("C03", "c03_u_8_2_4"), reuse("C03", "c03_u_3_0"), reuse("C03", "c03_u_9"), reuse("C03", "c03_u_1"),
-        reuse("C03", "c03_t_2_3", "t"), reuse("C03", "c03_t_3", "t"), reuse("C03", "c03_x_3"),
+        reuse("C03", "c03_t_2_3", "t"), reuse("C03", "c03_t_3"), reuse("C03", "c03_x_3"),
         reuse("C10", "c10_attr_history_2"), reuse("C10", "c10_tag_history_2"), reuse("C10", "c10_kw_history_1"), reuse("C10", "c10_tf_history_1"),
         reuse("C07", "c07_laws_und"), reuse("C14", "c14_script_decides@nolikely") if False else reuse("C07", "c07_wrapper_und"),
     ],
